@@ -195,6 +195,6 @@ def witness(entry):
 def main(tier):
     js = jobs(common.level("C11", tier))
     if common.level("C11", tier) == "deep":
-        js = common.widen(js, by=(1, 2))
+        js = common.widen(js, by=(1, 2, 3))
     return common.run_space_check("C11", tier, js, RULE, ASSUME, budget_s=110 if tier == "quick" else 1500,
                                   confirm=confirm, witness=witness)
